@@ -125,15 +125,35 @@ def mtc_overlap_cfgs(tier):
 
 
 def sttl_cfgs(tier):
+    """Accesses sit on integer ticks and every latency is an integer, so every fill / put / refresh
+    completes on the grid and reads issued exactly at completion + soft_ttl and completion + hard_ttl
+    are part of every timeline family (counted in the evidence as boundary reads)."""
     out = []
-    ttls = [(2, 4)] if tier == "quick" else [(2, 4), (1, 3), (0, 2), (2, 2)]
-    for soft, hard in ttls:
-        for L in (1, 3):
-            for cap in (None, 1):
-                for dh in (None, 5, 11):
-                    out.append({"soft": soft, "hard": hard, "L": L, "W": 1, "cap": cap, "del_half": dh,
-                                "n": 3 if (tier == "quick" or (soft, hard) != (2, 4)) else 4,
-                                "grid": 9, "alphabet": STTL_ALPHABET})
+
+    def add(soft, hard, L, cap, dh, n):
+        out.append({"soft": soft, "hard": hard, "L": L, "W": 1, "cap": cap, "del_half": dh, "n": n,
+                    "grid": 9, "alphabet": STTL_ALPHABET})
+
+    for L in (1, 3):
+        for cap in (None, 1):
+            for dh in (None, 5, 11):
+                add(2, 4, L, cap, dh, 3 if tier == "quick" else 4)
+    if tier == "quick":
+        # hard == soft, always-stale and tiny TTLs, zero / even read latency: one capacity, fewer delete instants
+        for soft, hard, L in ((2, 2, 1), (0, 2, 1), (1, 3, 2), (2, 4, 0), (2, 4, 2)):
+            for dh in (None, 5):
+                add(soft, hard, L, None, dh, 3)
+    else:
+        for soft, hard in ((1, 3), (0, 2), (2, 2), (0, 0), (1, 1)):
+            for L in (1, 3):
+                for cap in (None, 1):
+                    for dh in (None, 5, 11):
+                        add(soft, hard, L, cap, dh, 3)
+        for L in (0, 2):
+            for soft, hard in ((2, 4), (1, 3)):
+                for cap in (None, 1):
+                    for dh in (None, 5, 11):
+                        add(soft, hard, L, cap, dh, 3)
     return out
 
 
@@ -280,7 +300,7 @@ def main(tier, seed, only=None):
         cfgs = sttl_cfgs(tier)
         plan.append(("sttl", {"component": "SoftTTLCache",
                               "soft/hard ttl ticks": sorted({(c["soft"], c["hard"]) for c in cfgs}),
-                              "backing_read_latency": [1, 3], "capacity": [None, 1],
+                              "backing_read_latency": sorted({c["L"] for c in cfgs}), "capacity": [None, 1],
                               "backing delete at tick": [None, 2.5, 5.5],
                               "accesses": sorted({c["n"] for c in cfgs}), "grid_ticks": "0..9",
                               "alphabet": STTL_ALPHABET, "configs": len(cfgs)},
@@ -324,6 +344,14 @@ def main(tier, seed, only=None):
                 for p_, c in st["paths"].items():
                     paths[p_] = paths.get(p_, 0) + c
             d.extra["read_paths"] = paths
+            for k in ("reads_issued_exactly_at_store_completion_plus_hard_ttl",
+                      "reads_issued_exactly_at_store_completion_plus_soft_ttl"):
+                d.extra[k] = sum(st.get(k, 0) for st in mine)
+    run.notes.append("soft-TTL boundary: the statement forbids serving an entry OLDER than its hard TTL; an entry "
+                     "whose age equals hard_ttl at the instant the read is issued is not older, so the oracle's "
+                     "window [issue - hard_ttl, completion] is closed (the library's own docstring is stricter: "
+                     "'Expired: age >= hard_ttl'; that contract is not part of C16 and is not judged). Reads issued "
+                     "exactly at store completion + soft_ttl / + hard_ttl are explored and counted in the sttl driver.")
     _confirm(run)
     return run.finish()
 
